@@ -23,6 +23,7 @@ type syncObj struct {
 }
 
 func (in *Interp) syncOf(recv Value) *syncObj {
+	recv = in.pickAlt(recv)
 	p, ok := recv.(Ptr)
 	if !ok || p.p == nil {
 		if u, isU := recv.(*Union); isU {
